@@ -417,7 +417,7 @@ fn type_fault_oracle(out: &mut Out, tp: &prog::TypedPerturb, text: &str, spans: 
     crate::error::verif_hooks::LISTING_RANGES.with(|v| v.borrow_mut().clear());
     let r = guarded(|| crate::type_checker::type_check(None, text, &term, &mut vec![], &mut vec![]));
     let ranges: Vec<(usize, usize)> = crate::error::verif_hooks::LISTING_RANGES.with(|v| v.borrow().clone());
-    let what = format!("{} of type {} where {} is required, written as a {}", tp.position, tp.got, if tp.expected_int { "int" } else { "bool" }, tp.form);
+    let what = format!("{} of type {} where {} is required, written as a {}", tp.position, tp.got, if tp.expected_type { "a type" } else if tp.expected_int { "int" } else { "bool" }, tp.form);
     match r {
         Err(m) => { out.hit("C14", "type_check-panic", text, &m); return; }
         Ok(Ok((_, ty))) => {
